@@ -45,6 +45,10 @@ def gen_case(rng, tier):
     mt = rng.randint(0, 3)
     c = {"cls": cls, "graph": g, "mods": gen.gen_modalities(rng, 1, 2 if len(lnls) < 3 else 1), "max_time": mt,
          "dists": gen.gen_dists(rng, mt)}
+    if base == 3 and len(c["mods"]) >= 2 and rng.random() < 0.35:
+        # a clinical and a pathological modality with the same specificity and sensitivity (they still differ for micro)
+        c["mods"][1][1], c["mods"][1][2] = c["mods"][0][1], c["mods"][0][2]
+        c["mods"][1][3] = "clinical" if c["mods"][0][3] == "pathological" else "pathological"
     mods = [m[0] for m in c["mods"]]
     c["t"] = list(c["dists"])[0]
     c["mode"] = "HMM"
@@ -64,7 +68,7 @@ def gen_case(rng, tier):
         c["seed_params"] = rng.randrange(1 << 30)
         if cls == "bi":
             c["sym"] = {"tumor_spread": rng.random() < 0.5, "lnl_spread": rng.random() < 0.5}
-            if base == 2 and rng.random() < 0.2:
+            if base == 2 and rng.random() < 0.45:
                 c["mode"] = "BN"
             c["leaf_override"] = rng.choice([None, None, "contra", "ipsi"])
         else:
